@@ -212,6 +212,24 @@ pub fn run(ctx: &Ctx) -> Report {
     let mut rep = Report::new();
     let corp = corpus::load(&ctx.verif);
     let table = std::cell::RefCell::new(Table { map: HashMap::new() });
+    // a very long game (1100 plies; 2300 in the thorough tier) made ply by ply and then taken
+    // back completely, the key compared after every make and every unmake
+    if ctx.shard_index() == 1 {
+        let plies = ctx.tier.pick(1100, 2300);
+        let mut script = super::c02::long_game_script(plies);
+        for _ in 0..plies {
+            script.push("unmake".into());
+        }
+        rep.class("shape:very-long-game(>1000 plies, fully taken back)");
+        let mut t = Table { map: HashMap::new() };
+        if let Err(v) = run_script(&Pos::startpos().to_fen(), &script, &mut t, &mut rep) {
+            if let Some(k) = ctx.is_known(&v.sig) {
+                rep.known(&v.sig, &k.text);
+            } else {
+                rep.violation(v);
+            }
+        }
+    }
     let cases = ctx.tier.pick(120_000, 1_000_000) / ctx.shard_count() as u32;
     let max_len = ctx.tier.pick(100, 160);
     let strat = (ops_strategy(max_len), proptest::collection::vec(proptest::prelude::any::<u16>(), 4));
@@ -257,7 +275,7 @@ pub fn replay(_ctx: &Ctx, case_: &Value) -> Report {
 }
 
 pub const LEVEL: &str = "exploration";
-pub const RULE: &str = "proptest-generated op sequences (makes and take-backs interleaved; special-move-weighted play) from startpos / corpus / synthesised / pattern starts, plus explicit transposition probes (a x b y vs b x a y when both orders are legal and reach the same position). After the load, every make and every unmake: board.zkey == ZKey::from(&board) == Board::from_fen(oracle FEN).zkey, and a shard-wide table position-id -> key never sees a second key for a known id. Non-trivial = make/unmake steps that change castling rights, set or clear the e.p. file, promote or capture, and table hits by a different path; distinct by (position, move) resp. (position, path).";
+pub const RULE: &str = "proptest-generated op sequences (makes and take-backs interleaved; special-move-weighted play) from startpos / corpus / synthesised / pattern starts, plus explicit transposition probes (a x b y vs b x a y when both orders are legal and reach the same position). After the load, every make and every unmake: board.zkey == ZKey::from(&board) == Board::from_fen(oracle FEN).zkey, and a shard-wide table position-id -> key never sees a second key for a known id. Non-trivial = make/unmake steps that change castling rights, set or clear the e.p. file, promote or capture, and table hits by a different path; distinct by (position, move) resp. (position, path). Plus one very long game (1100 plies quick / 2300 thorough) made and then taken back completely.";
 pub const ASSUMPTIONS: &[&str] = &[
     "position identity = oracle's (placement, side, rights, e.p. file), compared through a 128-bit fingerprint",
     "the table is per shard (16 shards); cross-shard transpositions are covered by the FEN-reload equality, which is path-free",
